@@ -259,6 +259,78 @@ func runBounds(c *Ctx) {
 			instrAt[k] = append(instrAt[k], in)
 		})
 	}
+	// the compiler's report lists the checks it could not prove; an index it can prove to be OUT of range (`x[len(x)]`,
+	// `x[len(x)-0]`) is not among them — it compiles to an unconditional panic. Those are found here by their shape.
+	for _, f := range p.Funcs {
+		if !p.InTarget(f) {
+			continue
+		}
+		core.Instrs(f, func(in ssa.Instruction) {
+			ia, ok := in.(*ssa.IndexAddr)
+			if !ok {
+				return
+			}
+			if _, isSlice := ia.X.Type().Underlying().(*types.Slice); !isSlice {
+				return
+			}
+			idx := c.res(ia.Index)
+			if b, isB := idx.(*ssa.BinOp); isB && (b.Op == token.SUB || b.Op == token.ADD) {
+				if k, isK := core.ConstInt(b.Y); isK && ((b.Op == token.SUB && k <= 0) || (b.Op == token.ADD && k >= 0)) {
+					idx = c.res(b.X)
+				}
+			}
+			if c.isLenOf(idx, ia.X) {
+				c.R.Add("BOUNDS", "always-out-of-range|"+core.FuncName(f)+"|"+core.Path(ia.X), core.FuncName(f), p.InstrPos(in), false,
+					"no slice is indexed at its own length (or beyond)", "index "+core.Path(ia.Index)+" is never below the length of "+core.Path(ia.X))
+			}
+		})
+	}
+	// reflect's positional accessors panic like an index does: a counter handed to Type.In/Out/Field or Value.Field is
+	// compared strictly below the matching count (`i <= t.NumOut()` runs one position too far)
+	counts := map[string]string{"(reflect.Type).Out": "(reflect.Type).NumOut", "(reflect.Type).In": "(reflect.Type).NumIn", "(reflect.Type).Field": "(reflect.Type).NumField", "(reflect.Value).Field": "(reflect.Value).NumField"}
+	for _, f := range p.Funcs {
+		if !p.InTarget(f) {
+			continue
+		}
+		nAcc := 0
+		for _, ci := range core.Calls(f) {
+			want, ok := counts[core.CalleeName(ci.Common())]
+			if !ok {
+				continue
+			}
+			as := core.CallArgs(ci.Common())
+			if len(as) != 2 {
+				continue
+			}
+			ph, isPhi := as[1].(*ssa.Phi)
+			if !isPhi {
+				continue
+			}
+			for _, l := range core.Lits(core.Guards(ci.Block())) {
+				l = core.PositiveOrder(l)
+				if l.Kind != "cmp" || !l.Pol {
+					continue
+				}
+				var other ssa.Value
+				strict := false
+				switch {
+				case l.X == ssa.Value(ph) && (l.Op == token.LSS || l.Op == token.LEQ):
+					other, strict = l.Y, l.Op == token.LSS
+				case l.Y == ssa.Value(ph) && (l.Op == token.GTR || l.Op == token.GEQ):
+					other, strict = l.X, l.Op == token.GTR
+				default:
+					continue
+				}
+				cl, isC := core.Strip(other).(*ssa.Call)
+				if !isC || core.CalleeName(cl.Common()) != want {
+					continue
+				}
+				nAcc++
+				c.R.Add("BOUNDS", fmt.Sprintf("reflect-position|%s#%d", core.FuncName(f), nAcc), core.FuncName(f), p.InstrPos(ci), strict,
+					"a counter handed to a positional accessor of reflect stays strictly below the matching count", ternary(strict, "counter < count", "counter <= count: one position too far"))
+			}
+		}
+	}
 	c.roleOfFn = map[*ssa.Function]string{}
 	for _, r := range []string{"convertMulti", "executor", "resolver", "planner", "graphBuilder", "inputBuilder", "funcBuilder", "structWalker", "outputMapper", "resultAdapter"} {
 		if f := p.MustRole(r); f != nil {
